@@ -216,6 +216,74 @@ Proof.
   intros H. destruct (attach_roundtrip_proof b ps H) as (l & Hl & Hc). exists l. split; [exact Hl|].
   apply (Permutation_count_occ Nat.eq_dec). exact Hc.
 Qed.
+
+(* ---- what the reader gets from the written attachments, explicitly; writing it again gives the same options ---- *)
+Definition reread (ps : list nat) : list nat :=
+  if length (geo_all counts ps) =? nobj then flat_map (fun i => seq (start i) (cnt i)) (seq 0 nobj)
+  else flat_map (fun i => seq (start i) (cnt i)) (geo_all counts ps) ++ filter (fun p => negb (in_full counts ps p)) ps.
+
+Lemma resolve_written b ps : Forall (fun p => p < total) ps ->
+  resolve_all tags counts (write_attach tags counts b ps) = Some (reread ps).
+Proof.
+  intros Hps. unfold write_attach, reread. destruct (geo_all_props ps) as [Hnd Hall].
+  destruct (length (geo_all counts ps) =? nobj) eqn:E.
+  - cbn. rewrite app_nil_r. reflexivity.
+  - apply resolve_all_app; [apply resolve_all_tags; intros i Hi; apply Hall; exact Hi|apply resolve_all_enc].
+    apply Forall_forall. intros p Hp. apply filter_In in Hp. rewrite Forall_forall in Hps. apply Hps. apply Hp.
+Qed.
+
+Lemma reread_count ps q : Forall (fun p => p < total) ps -> C (reread ps) q = C ps q.
+Proof.
+  intros Hps. destruct (attach_roundtrip_proof true ps Hps) as (l & Hl & Hc).
+  rewrite (resolve_written true ps Hps) in Hl. inversion Hl; subst. apply Hc.
+Qed.
+
+Lemma nodupb_complete l : NoDup l -> nodupb l = true.
+Proof.
+  induction 1 as [|x r Hni Hnd IH]; [reflexivity|]. cbn. rewrite IH, andb_true_r. apply negb_true_iff.
+  destruct (existsb (Nat.eqb x) r) eqn:E; [|reflexivity]. exfalso. apply existsb_exists in E. destruct E as (y & Hy & Hxy).
+  apply Nat.eqb_eq in Hxy. subst. contradiction.
+Qed.
+
+Lemma of_obj_perm l ps i : (forall q, C l q = C ps q) -> Permutation (of_obj counts i l) (of_obj counts i ps).
+Proof.
+  intros H. apply (Permutation_count_occ Nat.eq_dec). intros q. unfold of_obj. rewrite !count_filter, H. reflexivity.
+Qed.
+
+Lemma full_perm l ps i : (forall q, C l q = C ps q) -> full counts l i = full counts ps i.
+Proof.
+  intros H. pose proof (of_obj_perm l ps i H) as P. unfold full. rewrite (Permutation_length P). f_equal.
+  destruct (nodupb (of_obj counts i ps)) eqn:E.
+  - apply nodupb_complete. apply (Permutation_NoDup (Permutation_sym P)). apply nodupb_spec. exact E.
+  - destruct (nodupb (of_obj counts i l)) eqn:E2; [|reflexivity].
+    apply nodupb_spec in E2. apply (Permutation_NoDup P) in E2. apply nodupb_complete in E2. congruence.
+Qed.
+
+Lemma geo_all_perm l ps : (forall q, C l q = C ps q) -> geo_all counts l = geo_all counts ps.
+Proof. intros H. unfold geo_all. apply filter_ext. intros i. apply full_perm. exact H. Qed.
+
+Lemma filter_none {A} (f : A -> bool) l : (forall x, In x l -> f x = false) -> filter f l = [].
+Proof. induction l as [|x r IH]; intros H; [reflexivity|]. cbn. rewrite (H x (or_introl eq_refl)). apply IH. intros y Hy. apply H. right. exact Hy. Qed.
+Lemma filter_idem {A} (f : A -> bool) l : filter f (filter f l) = filter f l.
+Proof. induction l as [|x r IH]; [reflexivity|]. cbn. destruct (f x) eqn:E; cbn; rewrite ?E, IH; reflexivity. Qed.
+
+(* the written options of the re-read load are the written options of the original load *)
+Theorem attach_fixpoint_proof b ps : Forall (fun p => p < total) ps ->
+  exists l, resolve_all tags counts (write_attach tags counts b ps) = Some l /\
+            write_attach tags counts b l = write_attach tags counts b ps.
+Proof.
+  intros Hps. exists (reread ps). split; [apply resolve_written; exact Hps|].
+  pose proof (geo_all_perm (reread ps) ps (fun q => reread_count ps q Hps)) as Hg.
+  unfold write_attach. rewrite Hg. destruct (length (geo_all counts ps) =? nobj) eqn:E; [reflexivity|].
+  f_equal. f_equal.
+  assert (Hf : forall p, in_full counts (reread ps) p = in_full counts ps p) by (intros p; unfold in_full; rewrite Hg; reflexivity).
+  rewrite (filter_ext _ _ (fun p => f_equal negb (Hf p))).
+  unfold reread. rewrite E. rewrite filter_app, filter_idem.
+  rewrite filter_none; [reflexivity|].
+  intros x Hx. apply negb_false_iff. unfold in_full. apply existsb_exists.
+  apply in_flat_map in Hx. destruct Hx as (i & Hi & Hxi). exists i. split; [exact Hi|].
+  apply in_obj_spec. apply in_seq in Hxi. lia.
+Qed.
 End P.
 
 (* the writer before the repair loses an attachment: pulse 0 of a two-pulse wire attached twice *)
